@@ -234,15 +234,21 @@ def spec_of(o, W=None, with_csys=True):
     return s
 
 
-def build_qop(s, csys_of):
+def build_qop(s, csys_of, revalidate=True):
     k = s["kind"]
     if k == "dist":
         return MultinomialDistribution(s["ps"].copy(), shape=tuple(s["shape"]), eps_zero=s["eps_zero"])
     if k == "ensemble":
-        return StateEnsemble([build_qop(x, csys_of) for x in s["states"]], build_qop(s["dist"], csys_of),
+        return StateEnsemble([build_qop(x, csys_of, revalidate) for x in s["states"]], build_qop(s["dist"], csys_of),
                              eps_zero=s["eps_zero"])
     c = csys_of(s["csys"])
     fl = dict(s["flags"])
+    if not revalidate and fl.get("is_physicality_required"):
+        # the live object passed its constructor's physicality test at the tolerance of ITS construction (possibly inside a
+        # tolerance window): an equal-valued counterpart is not re-validated at today's tolerance
+        o = build_qop(dict(s, flags=dict(fl, is_physicality_required=False)), csys_of)
+        o._is_physicality_required = True
+        return o
     if k == "state":
         return State(c, s["arr"].copy(), **fl)
     if k == "povm":
@@ -346,7 +352,7 @@ class Fresh:
         if k == "csys":
             o = self.csys(eid)
         elif k in ("state", "povm", "gate", "mprocess", "ensemble", "dist"):
-            o = build_qop(spec_of(en.obj, self.W), self.csys)
+            o = build_qop(spec_of(en.obj, self.W), self.csys, revalidate=False)
         elif k == "array":
             o = np.array(en.obj, copy=True)
         elif k == "basis":
@@ -1618,17 +1624,25 @@ def seq_run(setting, lcls, mode, weights=None):
         except Exception as e:  # noqa
             return e
     seq = attempt(datasets)
+    stop = len(datasets)
+    if isinstance(seq, Exception):
+        # the whole call raised: find the entry at which it does (shortest raising prefix); the entries before it are those
+        # of the prefix, the entries after it were never produced and cannot be compared
+        stop = next(j for j in range(len(datasets)) if isinstance(attempt(datasets[:j + 1]), Exception))
+        head = attempt(datasets[:stop]) if stop else []
+        seq = list(head) + [seq]
     bad = []
-    for k, d in enumerate(datasets):
+    for k, d in enumerate(datasets[:stop + 1] if stop < len(datasets) else datasets):
         fresh = attempt([d])
-        a = seq if isinstance(seq, Exception) else seq[k]
+        a = seq[k]
         b = fresh if isinstance(fresh, Exception) else fresh[0]
         if isinstance(a, Exception) or isinstance(b, Exception):
             if type(a) is not type(b):      # one side raises, the other estimates
+                thr = any(isinstance(x, ValueError) and "imaginary parts" in str(x) for x in (a, b))
                 bad.append((k, repr(a)[:80] if isinstance(a, Exception) else a.tolist(),
-                            repr(b)[:80] if isinstance(b, Exception) else b.tolist()))
+                            repr(b)[:80] if isinstance(b, Exception) else b.tolist(), "imaginary-threshold-raise" if thr else "entry-differs-from-fresh"))
         elif a.shape != b.shape or not np.allclose(a, b, rtol=0, atol=1e-10):
-            bad.append((k, a.tolist(), b.tolist()))
+            bad.append((k, a.tolist(), b.tolist(), "entry-differs-from-fresh"))
     return bad
 
 
@@ -1657,11 +1671,12 @@ def sequence_clause(ctx, volume=1):
                 ctx.case(("sequence", t, lcls, mode), sample={"clause": "sequence-vs-fresh", "loss": lcls, "mode": mode,
                                                               "testers": ns, "para": setting["para"]})
                 ctx.count(f"sequence clause {lcls} {mode}")
-                if bad:
-                    k, a, b = bad[0]
-                    ctx.violate(f"C13/sequence/{LOSSES[lcls][0].__name__}/{mode}/entry-differs-from-fresh",
+                for tag in sorted({x[3] for x in bad}):
+                    sel = [x for x in bad if x[3] == tag]
+                    k, a, b, _ = sel[0]
+                    ctx.violate(f"C13/sequence/{LOSSES[lcls][0].__name__}/{mode}/{tag}",
                                 f"calc_estimate_sequence over 3 datasets, {ns} two-outcome testers, mode {mode}: entries "
-                                f"{[x[0] for x in bad]} differ from the estimates of the same datasets with fresh objects "
+                                f"{[x[0] for x in sel]} differ from the estimates of the same datasets with fresh objects "
                                 f"(entry {k}: {a} vs {b})", rep)
 
 
@@ -2172,8 +2187,11 @@ def replay(ctx, data):
         return 1 if len(ctx.violations) > before else 0
     if r["kind"] == "sequence":
         bad = seq_run(r["setting"], r["loss"], r["mode"], r.get("weights"))
-        for k, a, b in bad:
-            print(f"  PROBLEM: entry {k} of the sequence {a}  vs fresh objects on that dataset alone {b}")
+        for k, a, b, tag in bad:
+            print(f"  PROBLEM ({tag}): entry {k} of the sequence {a}  vs fresh objects on that dataset alone {b}")
+        want = data.get("signature", "").rsplit("/", 1)[-1]
+        if want in ("imaginary-threshold-raise", "entry-differs-from-fresh"):
+            bad = [x for x in bad if x[3] == want]
         return 1 if bad else 0
     before = len(ctx.violations)
     if "seed" in r:
